@@ -975,3 +975,10 @@ type hashConcRec struct {
 	in     []byte
 	digest []byte
 }
+
+func init() {
+	ident := func(in *Interp, fr *frame, args []Value) Value { return args[0] }
+	intrinsics["strings.Clone"] = ident
+	intrinsics["internal/stringslite.Clone"] = ident
+	intrinsics["strconv.cloneString"] = ident
+}
